@@ -252,6 +252,13 @@ pub const CONTEXTS: &[&str] = &[
     "a = 1, c = { {} }, [a, c]",
     "a = 1, \"p{ {} \"s\" }q\"",
     "f = #'int { =0 => 0 | [~, 1] __integer_subtract__ { {} } }, 2 f",
+    // variables bound after the core (a core that leaves a local behind shifts them)
+    "x = 1, r = { {} }, y = 2, [x, y, r]",
+    "x = 1, r = 5 { {} }, y = 2, [x, y, r]",
+    "f = #'int { r = { {} }, y = 2, [~, y, r] }, 3 f",
+    // an earlier branch that stored bindings before it failed (statically / at run time)
+    "a = 1, 7 { 3 =x [] => 8 | {} }",
+    "a = 1, [7, 8] { =[x, 9] => x | {} }",
 ];
 
 /// All programs of the core grammar with at most `max_nodes` nodes, simplest first, at most `cap`.
@@ -270,14 +277,14 @@ pub fn programs(max_nodes: usize, cap: usize) -> Vec<String> {
 }
 
 /// Core × context products: every core of at most `core_nodes` nodes in every context.
-pub fn in_contexts(core_nodes: usize, cap: usize) -> Vec<String> {
+pub fn in_contexts(core_nodes: usize, cap: usize) -> (Vec<String>, bool) {
     let mut g = Gen::default();
     let mut out = vec![];
     for n in 1..=core_nodes {
         for core in g.expr(n) {
             for ctx in CONTEXTS {
                 if out.len() >= cap {
-                    return out;
+                    return (out, true);
                 }
                 // contexts that place the core in a sequence position cannot take `|`/`=>`
                 let needs_block = core.contains(" | ") || core.contains(" => ");
@@ -289,7 +296,7 @@ pub fn in_contexts(core_nodes: usize, cap: usize) -> Vec<String> {
             }
         }
     }
-    out
+    (out, false)
 }
 
 pub fn counts(max_nodes: usize) -> Vec<(usize, usize)> {
